@@ -75,6 +75,11 @@ theorem C09_drop_removes (w : World) (k : Key) (h : (step w (.dropTable k)).1 = 
       · have := List.mem_filter.mp hx
         exact ⟨this.1, by simpa using this.2⟩
 
+/-- **Statements without metadata effect** — what fakesnow answers with its success no-op (SET variable, SET TAG, CREATE
+    TAG, CLUSTER BY, column COMMENT, nop_regexes) and USE SCHEMA / USE DATABASE — leave the catalog and both side tables
+    exactly as they are, wherever they are interleaved. -/
+theorem C09_nop_unchanged (w : World) : step w .nop = (true, w) := rfl
+
 /-- **A failed statement changes nothing** (no envelope). -/
 theorem C09_failed_unchanged (w : World) (op : Op) (h : (step w op).1 = false) : (step w op).2 = w := by
   cases op <;> simp only [step] at h ⊢ <;> (repeat' split) <;> simp_all
